@@ -266,8 +266,17 @@ def run(tier, seed):
             w0, w1 = res["window"]
             inwin = [e for e in evs if w0 <= e["i"] < w1]
             gc = c["_model"]
-            for a in gc["free"]:
-                if not any(e["ev"] == "RoEnd" and e.get("a") == a for e in inwin):
+            stuck = [a for a in gc["free"] if not any(e["ev"] == "RoEnd" and e.get("a") == a for e in inwin)]
+            if stuck:
+                # "nothing moved for 300 ms" can also be a slow machine: confirm with a window five times as long before reporting
+                again = dict({k: c[k] for k in c if not k.startswith("_")}, quiesce_ms=1500, id=res["id"] + ".confirm")
+                r2 = run_harness("wslock", [again], wd, "confirm-" + res["id"], shards=1, timeout=600)[0]
+                ev2, _ = events_of(r2)
+                w20, w21 = r2["window"]
+                in2 = [e for e in ev2 if w20 <= e["i"] < w21]
+                stuck = [a for a in stuck if r2["held"] and not any(e["ev"] == "RoEnd" and e.get("a") == a for e in in2)]
+            for a in stuck:
+                if True:
                     v.violation(f"case {res['id']}: read-only actor {a} made no progress while actor {gc['holder']} was parked at "
                                 f"{c['hold']['point']} (read-only tools must not wait for the workspace lock)",
                                 {"engine": "wslock", "case": {k: c[k] for k in c if not k.startswith("_")}})
